@@ -249,6 +249,10 @@ func runPQLayout(rep *Report) {
 				fmt.Fprintln(tw, ackLine)
 				rep.Markers["ackplan"]++
 			}
+			if pqrun.LastWriterOps != "" {
+				fmt.Fprintln(tw, pqrun.LastWriterOps) // the same calls on the Lean writer model (C05Writer)
+				rep.Markers["writerops"]++
+			}
 		}
 		for k, f := range fails {
 			if k >= 2 {
